@@ -53,3 +53,9 @@ pub fn xxhash64(seed: u64, parts: &[&[u8]]) -> (u64, Vec<(usize, u64)>) {
 pub fn seed_hash(seed: u64) -> u16 {
     crate::hash::compute_seed_hash(seed)
 }
+
+/// CPC image format selectors for a sketch with the given coupon and pair counts: (pseudo-phase that
+/// selects the window code table, Golomb base bits of the pair stream).
+pub fn cpc_format_selectors(lg_k: u8, num_coupons: u32, num_pairs: u32) -> (u8, u8) {
+    crate::cpc::verif_format_selectors(lg_k, num_coupons, num_pairs)
+}
